@@ -93,6 +93,9 @@ func C19(p *core.Program, r *core.Report) {
 				{Name: "host equals root", Guard: core.A("host.isroot"), Outcome: "return true"},
 				{Name: "host is a subdomain of root", Guard: core.True(), Outcome: `return strings.HasSuffix(` + u + `#0.Host,("." + $1))`},
 			},
+			// net/url refuses the empty string ("empty url"), and "" does not start with "//": a separate
+			// test for the empty URL is redundant
+			Excl: [][2]string{{"url.empty", "parse.ok"}, {"url.empty", "scheme.rel"}},
 		}
 		core.CheckDecisionList(r, "H1", "HasRootDomain", paths, atoms, spec)
 		r.Floor("H1-path", 6)
